@@ -101,7 +101,12 @@ fn main() {
         }
         "C11" => wirep::run_c11(&opts, &mut Emitter::new(&mut out, opts.only)),
         "C11-garbage" => wirep::run_garbage_child(&opts),
-        "C01" => c01p::run(&opts, &mut Emitter::new(&mut out, opts.only)),
+        "C01" => {
+            let mut em = Emitter::new(&mut out, opts.only);
+            c01p::run(&opts, &mut em);
+            // the last stage on its own: reduced templates (every block already holding its UTxOs) through `compile`
+            compilep::run(&opts, &mut em, "C01");
+        }
         "C13" => c13::run(&opts, &mut Emitter::new(&mut out, opts.only)),
         "C12" | "C19" => frontp::run(&opts, &mut Emitter::new(&mut out, opts.only)),
         "C16" => jsonp::run(&opts, &mut Emitter::new(&mut out, opts.only)),
